@@ -1,1 +1,2 @@
+import Neutrino.Props.C14
 import Neutrino.Props.C16
